@@ -19,7 +19,7 @@ add("C03", "exploration",
     "backend sent none, and re-framing (Content-Length/Transfer-Encoding/Trailer/Connection), are allowed.",
     "property-based testing (rapid): grammar-generated responses, two-sided round-trip oracle at a raw client + race detector", "3/C03")
 add("C01", "exploration",
-    "Generated sets of 2-256 concurrent clients (body sizes, backend latencies, start offsets, statuses, framings, some clients giving up after 1-200 ms; GOMAXPROCS of both "
+    "Generated sets of 2-256 concurrent clients (body sizes, backend latencies, start offsets, statuses, framings, some clients giving up after 1-200 ms, groups of clients sending identical values in request-correlation header fields such as X-Request-Id or Idempotency-Key; GOMAXPROCS of both "
     "binaries generated) run against the real server and agent binaries built with -race; each request carries a unique token that the "
     "harness backend verifies on arrival and echoes into header, cookie, body and trailer together with a per-invocation nonce. Any "
     "foreign token, duplicated nonce, missing response or race/fatal report is a violation. Interleavings are sampled (the race "
@@ -32,7 +32,7 @@ add("C04", "exploration",
     "Agent part: generated histories of pending-list replies (repeats, permutations, overlapping subsets, full re-listing as the App "
     "Engine proxy does, 999/1000-ID boundary cases) with generated gaps and fetch/upload/backend delays are served by a fake proxy to the "
     "real agent binary; a counting backend and the upload log give invocations per ID (must be exactly 1 for every listed ID). Server "
-    "part: 1-16 concurrent harness pollers against the real stand-alone proxy while clients arrive (incl. bursts of 99-250 clients queued before the first poll); in the agent part some requests have their first three response uploads ended without an answer and are listed again, and one request may stay at the backend while 1001 others come and go before it is listed again; the multiset of listed IDs must be "
+    "part: 1-16 concurrent harness pollers against the real stand-alone proxy while clients arrive (incl. bursts of 99-250 clients queued before the first poll); in the agent part some requests have their first three response uploads ended without an answer and are listed again, and one request may stay at the backend while 1001 others come and go before it is listed again (or is named in every list reply meanwhile and listed once more after its response was uploaded), and ids may be listed again after completion; the multiset of listed IDs must be "
     "duplicate-free and complete, and resolve to distinct clients. Histories and schedules are sampled.",
     "The 1000-entry window is taken from the property text; IDs of earlier cases still occupy the agent's LRU (they are older, so they "
     "are evicted first). app/store's own listing is exercised by C19, not here.",
@@ -41,7 +41,7 @@ add("C05", "exploration",
     "Generated chunk-size/pause vectors (1 B .. 4 MiB, 1-50 chunks, chunked and Content-Length framing, octet-stream and text/html) x five agent configurations (default, session tracking, shim, banner, all) are produced by a scripted backend "
     "in lock-step with a fake proxy that incrementally decodes the agent's upload: chunk i+1 is only produced once every byte of chunk i "
     "was observed at the proxy. A chunk withheld for 5 s while the producer is idle and delivered only after the producer is released "
-    "is a confirmed violation; the reassembled body is also compared. 'Bounded time' is checked against that generous bound only.",
+    "is a confirmed violation; the reassembled body is also compared. One case in eight produces 2-48 such responses at the same time (every backend handler waits after its first chunk until the proxy has seen the first chunk of all of them). 'Bounded time' is checked against that generous bound only.",
     "Normal relay latency is milliseconds (two orders of magnitude below the bound). A stall without confirmation is reported as "
     "inconclusive, never as a violation.",
     "property-based testing (rapid): generated chunk vectors, lock-step progress oracle with release-and-confirm", "3/C05")
@@ -57,12 +57,12 @@ add("C06", "fault_enumeration",
 add("C08", "exploration",
     "(a) utils.ExponentialBackoffDuration is called for retry counts over the full unsigned range (dense around 11/12, powers of two, "
     "2^32, max) and compared with the closed form min(2^n ms, 3 s) x [0.9,1.1] computed in big-integer arithmetic; a native fuzz target "
-    "repeats this in the thorough tier. (b) generated fail/succeed patterns of list calls (5xx, 404, garbage, truncated body, error statuses with an empty body) are served to the real agent binary; lower "
+    "repeats this in the thorough tier. (b) generated fail/succeed patterns of list calls (5xx, 404, garbage, truncated body, error statuses with an empty body, 429/503 with a Retry-After of 0-2 s or a past date) are served to the real agent binary; lower "
     "bounds on the observed gaps (a sleep never returns early) and a reset probe (k>=9 failures, success, failure => short gap, "
     "confirmed on a second run) decide doubling, reset and absence of busy-looping. (c) list calls ended below HTTP (connection closed or reset without a response) "
     "for 2-3 s: the number of calls arriving in the window is bounded (<= 60; 13 fit the delays).",
-    "Upper bounds on observed gaps are not asserted (load-sensitive) except in the reset probe, where the two alternatives differ by "
-    "two orders of magnitude. Connection-level failures may be repeated once inside Go's HTTP transport; they are therefore judged by call counts per window (c), never by single gaps.",
+    "Upper bounds on observed gaps are not asserted (load-sensitive) except in the reset probe and for 'a whole second after at most five failures in a row', where the two alternatives differ by "
+    "two orders of magnitude (both confirmed on a second run). Connection-level failures may be repeated once inside Go's HTTP transport; they are therefore judged by call counts per window (c), never by single gaps.",
     "property-based testing (rapid) against a closed-form oracle; native go fuzzing; generated failure patterns with timestamp lower bounds", "3/C08")
 add("C09", "exploration",
     "Generated client header sets (forged/repeated/re-cased identity fields, Authorization fields, Connection fields nominating those names as hop-by-hop, noise) are sent as plain requests and "
@@ -72,7 +72,7 @@ add("C09", "exploration",
     "The backend is Go's HTTP server, which canonicalises field names (differently-cased copies are the same field, as for any HTTP peer).",
     "property-based testing (rapid): generated header sets x all 16 flag configurations, predicate oracle at a recording backend", "3/C09")
 add("C20", "exploration",
-    "Health part: generated pass/fail sequences of health checks x thresholds 1-4 are served by a scripted backend to the real agent binary; "
+    "Health part: generated pass/fail sequences of health checks x thresholds 1-4 (half of the scenarios with one or two checks answered only after 1.3-3.3 s, i.e. slower than the 1 s interval) are served by a scripted backend to the real agent binary; "
     "a counter model over the observed check sequence decides when the agent must exit (and that it must not exit earlier), and fake-proxy "
     "timestamps decide that no pending-list call precedes the first passing check. Shutdown part: signal x grace period x request phase (idle, listed, at the backend, uploading, list calls failing since shortly before the signal) x "
     "backend latency scenarios; one-sided time bounds on exit, a list-call cut-off rule and complete upload of the request that was at the "
@@ -81,8 +81,8 @@ add("C20", "exploration",
     "list-call rule. A bound hit only once is reported as inconclusive.",
     "property-based testing (rapid): generated health-check histories against a counter model; generated signal/phase/grace scenarios with one-sided time bounds", "3/C20")
 add("C07", "fault_enumeration",
-    "45 fault kinds over all injection points (pending list, request fetch, backend connect/headers/body, response upload, shim "
-    "endpoints incl. a real shim session fed odd message shapes, transport-level failures of list and fetch calls, three-digit status codes outside 100-599, conflicting lengths, unreachable backend) are (a) enumerated exhaustively at three positions of a stream of healthy requests and (b) inserted "
+    "50 fault kinds over all injection points (pending list, request fetch, backend connect/headers/body, response upload, shim "
+    "endpoints incl. a real shim session fed odd message shapes and shim opens whose backend drops, garbles, half-answers or refuses the handshake or is unreachable, transport-level failures of list and fetch calls, three-digit status codes outside 100-599, conflicting lengths, unreachable backend) are (a) enumerated exhaustively at three positions of a stream of healthy requests and (b) inserted "
     "at generated positions/multiplicities into generated streams of 10-60 healthy concurrent requests, against the real agent binary "
     "(-race, shim and session tracking on) behind a fake proxy and a faulty raw backend. Invariant: agent alive, no race/fatal/panic "
     "output, every healthy request (before, during, after) uploaded with its own content, 502 when the backend is unreachable.",
@@ -94,13 +94,13 @@ add("C10", "exploration",
     "path/domain scoping, Secure/HttpOnly, exotic Set-Cookie lines a strict parser skips, 1xx interim responses in front of the final one (relayed the way httputil.ReverseProxy does), client-supplied extra cookies; cache limit, lifetime and SSL override generated) run against "
     "the sessions.Cache handler in-process and are compared step by step with one independent net/http/cookiejar per session id; every "
     "cookie value carries its session tag so a cross-session leak is visible independently of the model; attributes and expiry of the "
-    "issued session cookie are checked. A concurrent part runs 8-32 goroutines over shared/different sessions under -race.",
+    "issued session cookie are checked. A concurrent part runs 8-32 goroutines over shared/different sessions under -race; another releases 2-16 requests together in a session whose id the cache does not hold (agent restarted, session evicted), each answered with a cookie of its own, and requires the next request of the session to carry them all (found the repaired defect F10e).",
     "The cookiejar differential is asserted while no more distinct session ids than the configured limit were used (eviction is allowed beyond); "
     "client cookie values are simple tokens in the generated histories; values outside Go's strict cookie grammar are covered by one fixed scenario (the repaired defect F10d). Interleavings are sampled, the race detector amplifies.",
     "stateful property-based testing (rapid): generated request/Set-Cookie histories, differential against net/http/cookiejar + tag isolation; concurrent stress under the race detector", "3/C10")
 add("C11", "exploration",
     "Delivery: generated operation sequences (data posts of 1-30 messages, backend bursts of 1-40 messages beyond the 10-slot buffers, polls, "
-    "a post concurrent with a poll; text = arbitrary valid UTF-8, binary = arbitrary bytes, sizes 0..1 MiB; shim protocol versions 0 and 1) run "
+    "a post concurrent with a poll, and in a third of the cases a final backend burst of 0-25 messages followed by a regular backend close, after which polls must deliver everything before they report the session closed; text = arbitrary valid UTF-8, binary = arbitrary bytes, sizes 0..1 MiB; shim protocol versions 0 and 1) run "
     "against websockets.Proxy in-process with a real gorilla/websocket backend and are compared with model queues in both directions. "
     "Injection: generated JSON/non-JSON messages x request headers with injection enabled, compared by a JSON-value oracle (byte identity "
     "for everything that is not a single JSON object with a resource.headers object, e.g. two concatenated documents or an object followed by a trailer); a native fuzz target repeats the byte-identity half in the "
@@ -151,11 +151,11 @@ add("C15", "exploration",
     "appends to, is not generated.",
     "property-based testing (rapid) + native go fuzzing: generated write/read segmentations, round-trip equality of byte streams", "3/C15")
 add("C16", "exploration",
-    "Generated histories of 1-20 bridged connections (closer = client or server, byte counts in both directions, close mode clean / dirty / dirty-quiet "
+    "Generated histories of 1-20 bridged connections (closer = client or server, byte counts in both directions (up to 6 MiB before a clean close, with the far peer reading up to 400 ms late and pausing up to 5 ms per read), close mode clean / dirty / dirty-quiet "
     "/ both-at-once / target-down, start offsets) run through the real bridge binaries; the far peer must observe end-of-stream within 5 s of the close, "
     "for clean closes after reading exactly the bytes written before it, and the file-descriptor counts of both bridge processes "
     "(/proc/<pid>/fd) must return to their baseline once every endpoint is closed. Stalled reader: 8-32 MiB are written and closed while the other peer starts reading "
-    "only 11-13 s later; every byte and then end-of-stream must arrive, and the writer must not fail. Orders and timings are sampled.",
+    "only 11-13 s later (at full speed or slowly; both directions in every case); every byte and then end-of-stream must arrive, and the writer must not fail. Orders and timings are sampled.",
     "A close is 'clean' when the closer has read everything sent to it and the far side is quiescent (a TCP peer closing with unread input "
     "emits RST and no relay can promise delivery then); only end-of-stream and the fd baseline are asserted for dirty/both closes. The 5 s "
     "bound is three orders of magnitude above the observed latency; a miss is re-run once before it counts.",
@@ -186,7 +186,7 @@ add("C19", "fault_enumeration",
     "proxy binary (-race) on the fake App Engine API, with harness-played agents listing, fetching and responding in generated orders; "
     "payloads are calibrated so that the serialised size lands exactly on 999999/1000000/1000001/1999999/2000000/2000001/3.5M; fetched "
     "bytes must parse back to the client's own request and each client must receive the response posted under its own id; completed ids "
-    "must leave the pending list. Blobs: write/read round trips through cache+store in-process at the same sizes and at 11-31 MB (ten and more parts) with memcache kept or "
+    "must leave the pending list; requests may be fetched a second time before and/or after their response (a 200 must return the same bytes again). Blobs: write/read round trips through cache+store in-process at the same sizes and at 11-31 MB (ten and more parts) with memcache kept or "
     "flushed, and writes of 1-12.5 MB whose first 1-7 (or all) blob-part Puts fail (the write must return, and success implies a complete read-back). Faults: subsets of nine store operations fail for their first 1-5 matching calls during a generated phase; every call must "
     "return within 8 s (the waiting client within 45 s) with a correct result or an error status, and a re-posted response must arrive "
     "intact. The fault space (subset x count x phase x sizes) is sampled, not enumerated; the 504 path runs once in the thorough tier.",
